@@ -405,8 +405,20 @@ def run_sharded(path, cases, shards=16, timeout=900):
 
     if not cases:
         return {}, []
-    shards = max(1, min(shards, len(cases)))
-    parts = [cases[i::shards] for i in range(shards)]
+    # cases that carry the same meta["group"] and stand next to each other form one unit: they run in ONE
+    # process, in order (what an earlier muxer leaves behind in the process must not reach a later one);
+    # ungrouped cases are units of one, dealt out round-robin exactly as before
+    units = []
+    for c in cases:
+        g = c.meta.get("group")
+        if g is not None and units and units[-1][0] == g:
+            units[-1][1].append(c)
+        else:
+            units.append((g, [c]))
+    shards = max(1, min(shards, len(units)))
+    parts = [[] for _ in range(shards)]
+    for k, (g, u) in enumerate(units):
+        parts[k % shards].extend(u)
     blocks, failures = {}, []
 
     def work(part):
